@@ -17,7 +17,7 @@ PROP = 'C10'
 LEVEL = 'exploration'
 RULE = ('(a) T1/T2/T3/T4/T5 netlists x build styles x all sequences of length <= 2 over {copy, pickle, eliminate_1to1_forks}; '
         '(b) implementation shapes (all bench netlists with <= 2 gates from {AND2, INV1, BUF1} over <= 3 inputs and <= 2 outputs incl. outputs read '
-        'internally, ignored inputs, inputs with many readers, no gates) x every subset of connected instance pins x 3 contexts; '
+        'internally, ignored inputs, inputs with many readers, no gates), each as parsed from bench text (ports are forks) and as a hand-built circuit with port cells and named signal forks (Verilog form; port line first/last in the fork), x every subset of connected instance pins x 3 contexts; '
         'every transformation that deletes nodes is followed on the node list (deletion trace) and the circuits include ones whose last node is a state element; '
         '(c) every built-in library cell name x pin subsets (quick: all connected, each single pin open, only one output connected, seed-selected slice of all subsets; '
         'thorough: all subsets) ; distinct_nontrivial = distinct (case, truth tables) signatures with a non-constant function')
@@ -197,6 +197,30 @@ def parse_impl(text):
     return [x for x in ins if x], outs, gates
 
 
+def cell_port_impl(iins, iouts, igates, port_line_last):
+    """The implementation in the form a Verilog module has: ports are cells of kind input/output, every signal is a
+    fork; a signal that is an output and is read inside as well fans out to the port cell and to the gates."""
+    from kyupy.circuit import Circuit, Node, Line
+    impl = Circuit('impl')
+    forks = {}
+    for a in iins:
+        n = Node(impl, a, 'input'); impl.io_nodes.append(n)
+        forks[a] = Node(impl, a); Line(impl, n, forks[a])
+    ocells = []
+    for j, o in enumerate(iouts):
+        n = Node(impl, f'{o}_port{j}', 'output'); impl.io_nodes.append(n); ocells.append(n)
+    cells = {}
+    for sig, (kind, ops) in igates.items():
+        cells[sig] = Node(impl, sig, kind); forks[sig] = Node(impl, sig); Line(impl, cells[sig], forks[sig])
+    def port_lines():
+        for j, o in enumerate(iouts): Line(impl, forks[o], ocells[j])
+    if not port_line_last: port_lines()
+    for sig, (kind, ops) in igates.items():
+        for k, o in enumerate(ops): Line(impl, forks[o], (cells[sig], k))
+    if port_line_last: port_lines()
+    return impl
+
+
 def check_b(res, case):
     from kyupy import bench
     from kyupy.circuit import Circuit, Node, Line
@@ -204,9 +228,15 @@ def check_b(res, case):
     text, conn_in, conn_out, ctx = case['impl'], case['conn_in'], case['conn_out'], case['ctx']
     key = f'C10/b/{text.replace(" ", "_")}/in{"".join(map(str, map(int, conn_in)))}/out{"".join(map(str, map(int, conn_out)))}/ctx{ctx}'
     try:
-        impl = bench.parse(text)
-        impl.eliminate_1to1_forks()
         iins, iouts, igates = parse_impl(text)
+        ports = case.get('ports', 'fork')
+        if ports == 'fork':
+            impl = bench.parse(text)
+        else:
+            impl = cell_port_impl(iins, iouts, igates, port_line_last=(ports == 'cell_last'))
+            key += '/ports-' + ports
+            res.count('b_cell_ports')
+        impl.eliminate_1to1_forks()
         # ---- context circuit: x_k -> (INV) -> instance pin k ; instance out j -> (XOR with x0) -> port
         c = Circuit('ctx')
         xs = [Node(c, f'x{k}', 'input') for k in range(len(iins))]
@@ -482,6 +512,9 @@ def run_task(task):
                 for conn_out in itertools.product((True, False), repeat=n_out):
                     for ctx in (0, 1, 2):
                         check_b(res, {'kind': 'b', 'impl': text, 'conn_in': list(conn_in), 'conn_out': list(conn_out), 'ctx': ctx})
+                        for pk, ports in enumerate(('cell', 'cell_last')):
+                            if tier == 'thorough' or (i + ctx + pk) % 3 == 0:
+                                check_b(res, {'kind': 'b', 'impl': text, 'conn_in': list(conn_in), 'conn_out': list(conn_out), 'ctx': ctx, 'ports': ports})
         if not res.samples: res.samples.append({'kind': 'b', 'impl': 'input(a,b) output(y,z) y=AND2(a,b) z=INV1(y)', 'conn_in': [True, False], 'conn_out': [False, True], 'ctx': 2})
     elif task[0] == 'e':
         for perm in itertools.permutations((0, 1)):
@@ -582,7 +615,7 @@ def check_e(res, case):
 
 
 def finish(agg, tier):
-    need = ['e_cases', 'a_elim', 'a_elim_state_last', 'b_cases', 'b_unconnected_input', 'c_cases', 'c_open_pin', 'c_with_node_deletions', 'd_cases']
+    need = ['e_cases', 'a_elim', 'a_elim_state_last', 'b_cases', 'b_cell_ports', 'b_unconnected_input', 'c_cases', 'c_open_pin', 'c_with_node_deletions', 'd_cases']
     missing = [k for k in need if not agg.counters.get(k)]
     if missing: raise common.HarnessError(f'vacuity guard: {missing} zero')
     return {}
